@@ -3,7 +3,7 @@ import lm
 import rules
 from lm import S, strip, cval
 from props.common import Ctx, has, fmt_facts, guard_retvals
-from props.containers import node_bookkeeping, dtor_discipline, is_free_call
+from props.containers import node_bookkeeping, dtor_discipline, is_free_call, itr_removed_guards
 from props.cmp import narrowing_findings
 
 LEVEL = "other"
@@ -138,5 +138,9 @@ def run(ck, P):
     dtor_discipline(ck, P, X, "C11.5-DTOR-SITES", B, "_bst", {"remove_node"},
                     ["m_bst_find", "m_bst_insert", "m_bst_itr_get_data", "m_bst_len", "m_bst_traverse"],
                     ["m_bst_remove", "m_bst_itr_remove", "m_bst_clear", "m_bst_free"])
+
+    ck.rule("C11.6-ITR-REMOVED", "R-GUARD: m_bst_itr_remove / m_bst_itr_get_data refuse once the current element was removed through the iterator "
+            "(guard on !itr->removed before any effect)", floor=2)
+    itr_removed_guards(ck, P, X, "C11.6-ITR-REMOVED", B, "m_bst")
 
     ck.not_decided += ["sortedness / tree consistency for all insertion orders", "iterator survival across removals (shape dependent)"]
